@@ -49,7 +49,7 @@ Record mon := mkM {
   m_cseq : Z;                    (* bumped whenever m_stable is set or cleared *)
   m_psel : bool;                 (* the peer has sent the establishing select in this generation *)
   m_selreq : list (Z * Z);       (* (origin, key) of our Select.req frames the peer has read, call still open *)
-  m_recv : list (Z * frame);     (* (origin, frame) seen by the peer *)
+  m_recv : list (Z * frame * Z); (* (origin, frame, serial of the last peer frame at that time) seen by the peer *)
   m_metric : option Z;           (* last drop-counter snapshot *)
   m_refused : Z                  (* not-selected refusals since that snapshot *)
 }.
@@ -149,7 +149,7 @@ Definition mon_upd (m : mon) (o : obs) : mon :=
       let sr := if (f_st f =? 1) && (f_pt f =? 0) && negb (origin =? -1) && m_up m
                 then (origin, f_sys f) :: m_selreq m else m_selreq m in
       mkM (m_calls m) fs (m_last m) (m_hlast m) (m_up m) (m_stable m) (m_cseq m) (m_psel m)
-          sr ((origin, f) :: m_recv m) (m_metric m) (m_refused m)
+          sr ((origin, f, m_last m) :: m_recv m) (m_metric m) (m_refused m)
   | OAsyncErr origin r =>
       mkM (m_calls m) (m_frames m) (m_last m) (m_hlast m) (m_up m) (m_stable m) (m_cseq m) (m_psel m)
           (m_selreq m) (m_recv m) (m_metric m) (if refusal r then m_refused m + 1 else m_refused m)
@@ -231,11 +231,18 @@ Definition absorbed (m : mon) (x : mfr) : bool :=
   existsb (fun c => registering (mc_kind c) (mc_msg c) && (f_sys (mc_msg c) =? f_sys (mf_f x)) &&
                     (mc_open c || (mf_n x <=? mc_closed_at c))) (m_calls m).
 
+(* some Reject(not selected) echoing the frame's session id and system bytes was read by the peer
+   after the frame was sent (which reject answers which frame is judged by C07's clause) *)
+Definition reject4_after (m : mon) (x : mfr) : bool :=
+  existsb (fun e => is_reject4 (snd (fst e)) && (fst (fst e) =? -1) &&
+                    (f_sid (snd (fst e)) =? f_sid (mf_f x)) && (f_sys (snd (fst e)) =? f_sys (mf_f x)) &&
+                    (mf_n x <=? snd e)) (m_recv m).
+
 Definition settle_ok (p : cfg) (m : mon) (x : mfr) : bool :=
   mf_settled x || negb (is_dataframe (mf_f x)) ||
-  (mf_used x && (mf_h x =? 0) && negb (mf_rej x)) ||
-  (negb (mf_used x) && (mf_h x =? NH p) && negb (mf_rej x)) ||
-  (negb (mf_used x) && (mf_h x =? 0) && (mf_rej x || absorbed m x)).
+  (mf_used x && (mf_h x =? 0)) ||
+  (negb (mf_used x) && (mf_h x =? NH p)) ||
+  (negb (mf_used x) && (mf_h x =? 0) && (reject4_after m x || absorbed m x)).
 
 Definition chk_recip (p : cfg) (m : mon) (o : obs) : bool :=
   match o with
@@ -243,13 +250,13 @@ Definition chk_recip (p : cfg) (m : mon) (o : obs) : bool :=
       match mf_get n (m_frames m) with
       | None => false
       | Some x =>
-          is_dataframe (mf_f x) && negb (mf_used x) && negb (mf_rej x) && (mf_h x =? h) && (0 <=? h) && (h <? NH p) &&
+          is_dataframe (mf_f x) && negb (mf_used x) && (mf_h x =? h) && (0 <=? h) && (h <? NH p) &&
           match assoc h (m_hlast m) with Some l => l <? n | None => true end
       end
   | ORet id (ROk (Some (n, _))) _ =>
       match mf_get n (m_frames m) with
       | None => false
-      | Some x => (mf_h x =? 0) && negb (mf_rej x)
+      | Some x => mf_h x =? 0
       end
   | OBarrier => forallb (settle_ok p m) (m_frames m)
   | _ => true
@@ -274,7 +281,7 @@ Definition chk_gate (m : mon) (o : obs) : bool :=
       | None => false
       | Some c =>
           (match r with
-           | RNotSelected | RNotOpen => negb (existsb (fun e => fst e =? id) (m_recv m))
+           | RNotSelected | RNotOpen => negb (existsb (fun e => fst (fst e) =? id) (m_recv m))
            | _ => true
            end) &&
           (* declared not-selected (resp. never opened) throughout the call => refused with that error *)
@@ -319,6 +326,10 @@ Definition chk_inbound (m : mon) (o : obs) : bool :=
         | None => false                   (* every Reject(4) answers exactly one data frame *)
         end
       else true
+  | OHandler h n =>
+      match mf_get n (m_frames m) with Some x => negb (mf_rej x) | None => true end
+  | ORet id (ROk (Some (n, _))) _ =>
+      match mf_get n (m_frames m) with Some x => negb (mf_rej x) | None => true end
   | OBarrier => forallb (inbound_ok m) (m_frames m)
   | _ => true
   end.
